@@ -101,20 +101,22 @@ macro_rules! fam {
     };
 }
 
-// quick: single registration
-fam1!(c17_q_pathmap1_exact, "a::b", "a::b", false);
+// quick: ONE registration of a ONE-segment path (two-segment registrations blow the SAT instance past 26 GB: the
+// `c17_x_*` families below are kept for documentation and are not selected by any tier)
+fam1!(c17_q_pathmap1_exact, "a", "a", false);
 fam1!(c17_q_pathmap1_descendant, "a", "a::b::c", false);
 fam1!(c17_q_pathmap1_prefix_sibling, "a", "aa", true);
-fam1!(c17_q_pathmap1_prefix_sibling_child, "a::b", "a::bb::c", false);
-fam1!(c17_q_pathmap1_ancestor_only, "a::b", "a", true);
+fam1!(c17_q_pathmap1_prefix_sibling_child, "a", "aa::c", false);
 fam1!(c17_q_pathmap1_skipped_segment, "noisy", "app::noisy", false);
-fam1!(c17_q_pathmap1_inner_mismatch, "a::b", "a::x::b", true);
-// thorough: two registrations in symbolic order
-fam!(c17_t_pathmap_nested, "a", "a::b", "a::b::c");
-fam!(c17_t_pathmap_prefix_sibling, "a", "aa", "aa");
-fam!(c17_t_pathmap_repeated, "a", "a", "a::b");
-fam!(c17_t_pathmap_unrelated_suffix, "b", "a::b", "a::b");
-fam!(c17_t_pathmap_root_mismatch, "a", "a::b", "z::a::b");
+fam1!(c17_q_pathmap1_root_mismatch, "a", "z::a", true);
+fam1!(c17_t_pathmap1_unrelated, "b", "a", true);
+fam1!(c17_t_pathmap1_deep_descendant, "a", "a::b::c::d", true);
+// not registered (do not fit)
+fam1!(c17_x_pathmap1_ancestor_only, "a::b", "a", true);
+fam1!(c17_x_pathmap1_inner_mismatch, "a::b", "a::x::b", true);
+fam!(c17_x_pathmap_nested, "a", "a::b", "a::b::c");
+fam!(c17_x_pathmap_prefix_sibling, "a", "aa", "aa");
+fam!(c17_x_pathmap_repeated, "a", "a", "a::b");
 
 #[kani::proof]
 #[kani::unwind(12)]
@@ -127,3 +129,7 @@ pub fn c17_w_twin_prefix_is_textual() {
     assert!(!got);
     core::mem::forget(map);
 }
+
+// (A lookup-only formulation on explicit two-level trees through an injected constructor was also tried:
+//  `MinLevelPathMap::matches` on root -> [a -> [b], aa] with symbolic rule presence ran out of 26 GB in CBMC's
+//  propositional reduction after 237 s. Nested rules in the path map are therefore NOT decided; see prop_C17.py.)
